@@ -5,6 +5,7 @@
    Character classes of a string:
      "plain"     ASCII that needs no escaping          "markup"   < > &          "quote"  ' "
      "ws"        TAB LF CR (legal C0 controls)         "nonascii" any legal character above 0x7F
+     "nl"        LF where it matters: XhtmlStream.charactersWithBr() writes text with every LF replaced by <br/>
      "ctl"       any other C0 control (NOT an XML 1.0 character)
      "nonchar"   U+FFFE, U+FFFF, lone surrogates (NOT XML 1.0 characters)
    A string is a sequence of classes.  Tokens written for a character:
@@ -22,6 +23,7 @@ EXTENDS Integers, Sequences, FiniteSets, TLC
 CONSTANTS Names,       \* element names offered
           AttrVals,    \* attribute value strings offered (sequences of classes)
           Texts,       \* text strings offered
+          BrTexts,     \* strings offered to charactersWithBr (may contain "nl")
           MaxCalls,
           F7           \* TRUE: model the implementation's known deviation (finding F7): a character XML cannot
                        \* represent is written as a numeric reference to itself, which no parser accepts
@@ -30,14 +32,14 @@ Representable(c) == c \notin {"ctl", "nonchar"}
 (* XmlStream._encode *)
 Encode(c) == CASE c = "plain" -> [t |-> "raw", c |-> c]
                [] c \in {"markup", "quote"} -> [t |-> "ent", c |-> c]
-               [] c = "ws" -> [t |-> "cref", c |-> c]
+               [] c \in {"ws", "nl"} -> [t |-> "cref", c |-> c]
                [] c = "nonascii" -> [t |-> "cref", c |-> c]
                [] OTHER -> IF F7 THEN [t |-> "cref", c |-> c]            \* &#001; : illegal reference (finding F7)
                            ELSE [t |-> "cref", c |-> "repl"]       \* not an XML character: replaced
 EncodeStr(s) == [i \in 1..Len(s) |-> Encode(s[i])]
 (* what an XML parser makes of a token *)
 TokenLegal(tok) == /\ tok.t \in {"raw", "ent", "cref"}
-                   /\ tok.c \in {"plain", "markup", "quote", "ws", "nonascii", "repl"}
+                   /\ tok.c \in {"plain", "markup", "quote", "ws", "nl", "nonascii", "repl"}
                    /\ (tok.t = "raw" => tok.c \in {"plain", "nonascii"})      \* raw markup/quote/ws would be misparsed
 Decode(tok) == tok.c
 Meaning(s) == [i \in 1..Len(s) |-> IF Representable(s[i]) THEN s[i] ELSE "repl"]
@@ -78,6 +80,27 @@ Characters(s) ==
     /\ inElem' = FALSE /\ calls' = calls + 1 /\ raised' = FALSE /\ UNCHANGED <<stk, state>>
     /\ hist' = Append(hist, [op |-> "chars", s |-> s])
 
+(* XhtmlStream.charactersWithBr:  while len(s) > 0: i = s.find(LF); if found: characters(s[:i]); <br/>; s = s[i+1:]
+                                                   else: characters(s); break                                        *)
+RECURSIVE BrSteps(_), BrOut(_, _), BrExp(_, _)
+BrSteps(s) == IF s = <<>> THEN <<>>
+              ELSE LET nls == {i \in 1..Len(s) : s[i] = "nl"} IN
+                   IF nls = {} THEN << [k |-> "piece", s |-> s] >>
+                   ELSE LET i == CHOOSE x \in nls : \A y \in nls : x <= y IN
+                        << [k |-> "piece", s |-> SubSeq(s, 1, i - 1)], [k |-> "br"] >> \o BrSteps(SubSeq(s, i + 1, Len(s)))
+BrOut(o, st) == IF st = <<>> THEN o
+                ELSE BrOut(IF st[1].k = "piece" THEN Append(o, [k |-> "text", toks |-> EncodeStr(st[1].s)])
+                           ELSE Append(Append(o, [k |-> "open", name |-> "br", attrs |-> <<>>]), [k |-> "selfclose"]), Tail(st))
+BrExp(ex, st) == IF st = <<>> THEN ex
+                 ELSE BrExp(IF st[1].k = "piece" THEN AddChars(ex, st[1].s)
+                            ELSE Append(Append(ex, <<"start", "br", <<>>>>), <<"end", "br">>), Tail(st))
+CharsBr(s) ==
+    /\ state = "open" /\ calls < MaxCalls /\ stk # <<>>
+    /\ out' = IF s = <<>> THEN out ELSE BrOut(CloseIfOpen(out), BrSteps(s))
+    /\ expect' = BrExp(expect, BrSteps(s))
+    /\ inElem' = (IF s = <<>> THEN inElem ELSE FALSE) /\ calls' = calls + 1 /\ raised' = FALSE /\ UNCHANGED <<stk, state>>
+    /\ hist' = Append(hist, [op |-> "charsbr", s |-> s])
+
 Comment(s) ==
     /\ state = "open" /\ calls < MaxCalls /\ stk # <<>>
     /\ out' = Append(CloseIfOpen(out), [k |-> "comment", toks |-> EncodeStr(s)])
@@ -109,6 +132,7 @@ Next == \/ Enter \/ Exit
         \/ \E n \in Names : EndElement(n)
         \/ \E n \in Names, v \in AttrVals, h \in BOOLEAN : StartElement(n, h, v)
         \/ \E s \in Texts : Characters(s) \/ Comment(s)
+        \/ \E s \in BrTexts : CharsBr(s)
 Spec == Init /\ [][Next]_vars
 
 (* ---- an XML parser over the token sequence ---- *)
